@@ -28,7 +28,7 @@ MAXTASKS = 1
 def plan(tier, seed):
     names = sani.group_names(tier)
     shards = [("asan", g, tier) for g in names] + [("diff", g, tier) for g in names] + [("stray", g, tier) for g in names] + \
-        [("team", g, tier) for g in names]
+        [("team", g, tier) for g in names] + [("wrapper", g, tier) for g in names]
     k = seed % len(shards)
     return shards[k:] + shards[:k]
 
@@ -213,8 +213,81 @@ def _run_team(desc):
     return sh
 
 
+WRAPPED = ("array_histogram", "bgcalc", "frelon_lines", "frelon_lines_sub", "blob_moments", "clean_mask", "localmaxlabel", "make_clean_mask",
+           "mask_to_coo")
+
+
+def _run_wrapper(desc):
+    """the f2py interface in front of the kernels (src/_cImageD11.pyf hides the dimension arguments and computes them from the arrays): for
+    the kernels whose wrapper takes exactly the C arguments minus the hidden ones, every call of the tables made THROUGH the python
+    wrapper - arrays placed inside guard zones - writes what the direct call with the table's explicit dimensions writes, and nothing
+    outside the arrays"""
+    _, group, tier = desc
+    import re
+    from ImageD11 import cImageD11 as cI
+    sh = Shard()
+    sani.NP_["NPROPERTY"], sani.NP_["NPROPERTY2D"] = nprops()
+    root = os.environ["VT_ROOT"]
+    plain = ctypes.CDLL(os.path.join(root, "lib", "libid11_plain.so"))
+    plain.cimaged11_omp_set_num_threads(1)
+    pyf = open(os.path.join(os.environ["VT_REPO"], "src", "_cImageD11.pyf")).read()
+    sig = {}
+    for m in re.finditer(r"(?:subroutine|function)\s+(\w+)\s*\(([^)]*)\)", pyf):
+        sig.setdefault(m.group(1), [a.strip() for a in m.group(2).split(",") if a.strip()])
+    GUARD = 1024
+    seen = {}
+    for idx, call in enumerate(sani.calls_of(group, tier)):
+        k = call.kernel
+        if k not in WRAPPED or seen.get(k, 0) >= (60 if tier == "quick" else 600):
+            continue
+        fn = getattr(cI, k)
+        vis = re.match(r"\s*(?:[\w, ]*=\s*)?\w+\(([^)\[]*)", fn.__doc__ or "")
+        visible = [a.strip() for a in vis.group(1).split(",") if a.strip()] if vis else None
+        full = sig.get(k)
+        if visible is None or full is None or len(full) != len(call.args) or not all(v in full for v in visible):
+            sh.count("calls_whose_wrapper_signature_does_not_map")
+            continue
+        seen[k] = seen.get(k, 0) + 1
+        ref = sani.invoke(plain, call, exact=False, poison=None)
+        arrs, wargs, bufs = [], [], []
+        for name, a in zip(full, call.args):
+            if a[0] == "a":
+                src = a[1]
+                buf = np.full(src.nbytes + 2 * GUARD, 0xA5, np.uint8)
+                arr = buf[GUARD:GUARD + src.nbytes].view(src.dtype).reshape(src.shape)
+                arr[...] = src
+                bufs.append(buf)
+                arrs.append((a, arr))
+                if name in visible:
+                    wargs.append((name, arr))
+            elif name in visible:
+                wargs.append((name, a[1]))
+        wargs = [v for n_, v in sorted(wargs, key=lambda t: visible.index(t[0]))]
+        case = {"kind": "wrapper", "group": group, "tier": tier, "index": idx, "call": call.describe()[:300]}
+        try:
+            fn(*wargs)
+        except Exception as e:
+            sh.violation("f2py-wrapper-refuses-a-call-the-kernel-accepts:%s" % k, case, {"error": repr(e)[:200]})
+            continue
+        if any((b[:GUARD] != 0xA5).any() or (b[-GUARD:] != 0xA5).any() for b in bufs):
+            sh.violation("f2py-wrapper:write-outside-the-array:%s" % k, case, {})
+            continue
+        outs = []
+        for a, arr in arrs:
+            if a[2] in ("io", "out"):
+                prom = a[3]
+                outs.append(np.array(arr.reshape(-1)[prom(ref[0], arr)]) if prom is not None else np.array(arr))
+        if not all(x.shape == y.shape and np.array_equal(x, y, equal_nan=(x.dtype.kind == "f")) for x, y in zip(outs, ref[1])):
+            sh.violation("f2py-wrapper:result-differs-from-the-kernel-called-with-the-table's-dimensions:%s" % k, case, {})
+        sh.evaluations += 1
+        sh.nontrivial += 1
+        sh.outcomes.add(("wrapper", k))
+    sh.sample({"monitor": "f2py wrapper against the direct call, guard zones", "group": group, "kernels": sorted(seen)}, limit=1)
+    return sh
+
+
 def run_shard(desc):
-    return {"asan": _run_asan, "diff": _run_diff, "stray": _run_stray, "team": _run_team}[desc[0]](desc)
+    return {"asan": _run_asan, "diff": _run_diff, "stray": _run_stray, "team": _run_team, "wrapper": _run_wrapper}[desc[0]](desc)
 
 
 def replay(case):
